@@ -454,6 +454,7 @@ func (v *PacketDslVisitorImpl) VisitMatchFieldDeclaration(ctx *gen.MatchFieldDec
 			})
 			continue
 		}
+		pairsMap[pair.Key] = struct{}{}
 	}
 	return &model.Field{
 		Name:     matchName,
